@@ -2,7 +2,7 @@
 //@ props C01 C02 C04 C05
 //@@ verus-args --rlimit 40
 //@@ depends partitions
-//@@ fnprops C04 lemma_done_stable canary_morphism_contract lemma_track_step lemma_img_rng lemma_conn_cong lemma_conn_homog lemma_conn_base lemma_pop lemma_skip lemma_unite_step lemma_queue_push lemma_ci_pop lemma_good_images lemma_ci_push lemma_ci_none lemma_fold_result lemma_walk_rng lemma_img_involution lemma_pull_back lemma_minimal_iff_only_trivial canary_is_minimal_contract canary_fold_contract canary_connected_is_satisfiable lemma_jchain_rng lemma_jchain_cons lemma_jchain_sym lemma_jchain_trans lemma_joined_equiv lemma_least lemma_jrep lemma_jchain_cong lemma_join_good lemma_walk_cong lemma_coarsest lemma_mi_step lemma_mi_back lemma_mi_commutes canary_minimal_image_contract canary_join_is_satisfiable
+//@@ fnprops C04 lemma_morphism_total lemma_assigned_along witness_morphism_total lemma_done_stable canary_morphism_contract lemma_track_step lemma_img_rng lemma_conn_cong lemma_conn_homog lemma_conn_base lemma_pop lemma_skip lemma_unite_step lemma_queue_push lemma_ci_pop lemma_good_images lemma_ci_push lemma_ci_none lemma_fold_result lemma_walk_rng lemma_img_involution lemma_pull_back lemma_minimal_iff_only_trivial canary_is_minimal_contract canary_fold_contract canary_connected_is_satisfiable lemma_jchain_rng lemma_jchain_cons lemma_jchain_sym lemma_jchain_trans lemma_joined_equiv lemma_least lemma_jrep lemma_jchain_cong lemma_join_good lemma_walk_cong lemma_coarsest lemma_mi_step lemma_mi_back lemma_mi_commutes canary_minimal_image_contract canary_join_is_satisfiable
 //@@ fnprops C01 canary_from_str_contract
 //@@ fnprops C02 lemma_iter_ij_range lemma_step_ij_injective lemma_iter_ij_cancel lemma_r_bound canary_default_r_contract
 //@@ fnprops C05 canary_cover_contract lemma_fibres lemma_sheet lemma_compose lemma_bop lemma_xor1 lemma_xor1_inj
@@ -2774,6 +2774,8 @@ proof fn lemma_done_stable<S: DSet, T: DSet>(this: &S, other: &T, m: Seq<usize>,
             &&& m.len() == this.ssize() + 1
             &&& m[1] == img0
             &&& forall|d: int| 1 <= d <= this.ssize() && m[d] != 0 ==> #[trigger] valid_at(this, other, m, d)
+            // images are chambers of `other` (given that the base image is one)
+            &&& img0 <= other.ssize() ==> forall|d: int| 1 <= d <= this.ssize() ==> #[trigger] m[d] <= other.ssize()
         },
         // None: no map whatsoever with base image img0 is a morphism
         r.is_none() ==> forall|phi: Seq<usize>| !#[trigger] is_morphism(this, other, phi, img0),
@@ -2801,6 +2803,7 @@ proof fn lemma_done_stable<S: DSet, T: DSet>(this: &S, other: &T, m: Seq<usize>,
             done_ok(this, other, m@, done),
             agrees(this, other, m@, img0),
             qg == queue@,
+            img0 <= other.ssize() ==> forall|x: int| 1 <= x <= this.ssize() ==> #[trigger] m@[x] <= other.ssize(),
         ensures
             queue@.len() == 0,
     {
@@ -2853,6 +2856,7 @@ proof fn lemma_done_stable<S: DSet, T: DSet>(this: &S, other: &T, m: Seq<usize>,
                 agrees(this, other, m@, img0),
                 ops_ok(this, other, m@, d as int, i as int),
                 deg_ok(this, other, d as int, e as int),
+                img0 <= other.ssize() ==> forall|x: int| 1 <= x <= this.ssize() ==> #[trigger] m@[x] <= other.ssize(),
         {
             proof { this.lemma_wf(); other.lemma_wf(); }
             let ghost mi = m@;
@@ -2945,6 +2949,60 @@ pub open spec fn partial_morphism<S: DSet, T: DSet>(this: &S, other: &T, m: Seq<
     &&& m.len() == this.ssize() + 1
     &&& m[1] == img0
     &&& forall|d: int| 1 <= d <= this.ssize() && m[d] != 0 ==> #[trigger] valid_at(this, other, m, d)
+}
+
+// C04 "morphism search returns a valid morphism": for complete symbols of one dimension and a source that is connected from chamber 1,
+// the map morphism returns assigns EVERY chamber (the assigned chambers contain chamber 1 and are closed under every operation), hence it
+// is a morphism in the full sense
+pub proof fn lemma_morphism_total<S: DSet, T: DSet>(this: &S, other: &T, m: Seq<usize>, img0: usize)
+    requires this.wf(), other.wf(), base_complete(this), base_complete(other), this.sdim() == other.sdim(), connected_from_1(this),
+        partial_morphism(this, other, m, img0), 1 <= img0 <= other.ssize(),
+        forall|d: int| 1 <= d <= this.ssize() ==> #[trigger] m[d] <= other.ssize(),
+    ensures forall|d: int| 1 <= d <= this.ssize() ==> #[trigger] m[d] != 0,
+        is_morphism(this, other, m, img0),
+{
+    this.lemma_wf();
+    assert forall|d: int| 1 <= d <= this.ssize() implies #[trigger] m[d] != 0 by {
+        assert(rng(this, d as usize));
+        let p = choose|p: Seq<int>| path_ok(this, p) && #[trigger] walk(this, p, 1) == d as usize;
+        lemma_assigned_along(this, other, m, img0, p);
+    }
+    assert forall|d: int| 1 <= d <= this.ssize() implies #[trigger] valid_at(this, other, m, d) by { assert(m[d] != 0); }
+}
+proof fn lemma_assigned_along<S: DSet, T: DSet>(this: &S, other: &T, m: Seq<usize>, img0: usize, p: Seq<int>)
+    requires this.wf(), other.wf(), base_complete(this), base_complete(other), this.sdim() == other.sdim(),
+        partial_morphism(this, other, m, img0), 1 <= img0 <= other.ssize(), path_ok(this, p),
+        forall|d: int| 1 <= d <= this.ssize() ==> #[trigger] m[d] <= other.ssize(),
+    ensures rng(this, walk(this, p, 1)), m[walk(this, p, 1) as int] != 0
+    decreases p.len()
+{
+    this.lemma_wf(); other.lemma_wf();
+    if p.len() > 0 {
+        let p0 = p.drop_last();
+        assert(path_ok(this, p0)) by { assert forall|k: int| 0 <= k < p0.len() implies 0 <= #[trigger] p0[k] <= this.sdim() by { assert(p0[k] == p[k]); } }
+        lemma_assigned_along(this, other, m, img0, p0);
+        let x = walk(this, p0, 1);
+        let i = p.last();
+        assert(0 <= i <= this.sdim()) by { assert(p[p.len() - 1] == i); }
+        assert(valid_at(this, other, m, x as int));
+        assert(op_ok(this, other, m, x as int, i));
+        assert(this.sop(i, x as int).is_some());
+        assert(1 <= m[x as int] <= other.ssize());
+        assert(other.sop(i, m[x as int] as int).is_some());
+        lemma_img_rng(this, i, x);
+    }
+}
+
+
+// the contract of morphism is what lemma_morphism_total needs: for connected complete symbols Some(m) is a morphism on ALL chambers (must verify)
+fn witness_morphism_total<S: DSet, T: DSet>(a: &S, b: &T, img0: usize)
+    requires a.wf(), b.wf(), base_complete(a), base_complete(b), a.sdim() == b.sdim(), connected_from_1(a), 1 <= img0 <= b.ssize()
+{
+    let r = morphism(a, b, img0);
+    if let Some(m) = r {
+        proof { lemma_morphism_total(a, b, m@, img0); }
+        assert(is_morphism(a, b, m@, img0));
+    }
 }
 
 // base image d is decided by the list: either some listed map sends chamber 1 to d, or no self-morphism does
